@@ -784,11 +784,13 @@ impl ConnectionPool {
             });
         }
 
-        // Indicate we're waiting on a server connection from a pool.
         let now = Instant::now();
-        client_stats.waiting();
 
         while !candidates.is_empty() {
+            // Indicate we're waiting on a server connection from a pool
+            // (a failed candidate puts the client back to idle).
+            client_stats.waiting();
+
             // Get the next candidate
             let address = match candidates.pop() {
                 Some(address) => address,
